@@ -265,6 +265,14 @@ let arith_mode (file : string) =
          (match List.hd q with
           | "ctb" -> (match capacity_to_buckets (zi !gw) (z 1) (z 2) (z 3) with Some x -> string_of_z x | None -> "none")
           | "bmtc" -> string_of_z (bucket_mask_to_capacity (z 1))
+          | "tlnew" ->
+            (* TableLayout::new::<T>() for a concrete T: the answer carries size_of / align_of T, which are
+               the inputs of the generated table_layout_new *)
+            (match r with
+             | [so; ao; _; _] ->
+               let (ts, ca) = table_layout_new (zi !gw) (zs so) (zs ao) in
+               Printf.sprintf "%s %s %s %s" so ao (string_of_z ts) (string_of_z ca)
+             | _ -> "?")
           | "layout" -> (match calculate_layout_for (zi !gw) (z 1) (z 2) (z 3) with
               | Some ((l, a), o) -> Printf.sprintf "%s %s %s" (string_of_z l) (string_of_z a) (string_of_z o)
               | None -> "none")
@@ -670,7 +678,8 @@ let () =
          let boolret b = if b then "bool 1" else "bool 0" in
          let in_l (e : kv) l = List.exists (fun (x : kv) -> Z.eqb x.k_id e.k_id) l in
          (* mathematical results from the abstract contents (level A) *)
-         let sa = !spec and sb = !spec_other in
+         (* `self <op>`: the set paired with itself (identical dumps: identical contents either way) *)
+         let sa = !spec and sb = (if prea_s = preb_s then !spec else !spec_other) in
          let m_union = sa @ List.filter (fun e -> not (in_l e sa)) sb in
          let m_inter = List.filter (fun e -> in_l e sb) sa in
          let m_diff = List.filter (fun e -> not (in_l e sb)) sa in
